@@ -297,7 +297,23 @@ def histories(draw, max_n=7, max_ops=10):
         gen.networks(min_n=2, max_n=max_n, max_dim=4, volume_limit=2**16)
     )
     path = draw(gen.linear_paths(len(net["inputs"])))
-    if draw(st.integers(0, 2)) == 0:
+    THEMES = {
+        # related operations in a row (state one leaves behind is what the next meets)
+        "anneal+slicing": {"anneal", "temper", "slice", "remove", "restore", "unslice_rand", "unslice_all", "slice_reconf"},
+        "reconf+slicing": {"reconf", "reconf_forest", "slice", "remove", "restore", "unslice_all", "slice_reconf", "slice_reconf_forest", "copy"},
+        "slicing": {"remove", "restore", "slice", "unslice_rand", "unslice_all", "slice_unslice", "contract", "copy"},
+        "recipes": {"sort", "reset_inds", "contract", "reconf", "anneal", "remove", "restore", "copy"},
+    }
+    mode = draw(st.integers(0, 5))
+    if mode == 5:
+        theme = draw(st.sampled_from(sorted(THEMES)))
+        allowed = THEMES[theme]
+        ops = draw(
+            st.lists(op_strategy().filter(lambda o: o["op"] in allowed), min_size=3, max_size=7)
+        )
+        # mostly unobserved in between
+        ops = [dict(o, obs=draw(st.sampled_from(["none", "none", "copy", "real"]))) for o in ops]
+    elif mode in (0, 1):
         # short unobserved chains: two or three transformations with nothing
         # looking at the tree in between (stale lazily filled caches survive
         # only until the first observation), final state observed
